@@ -24,7 +24,10 @@ for d in sorted(os.listdir(os.path.join(ROOT, "seeded"))):
         by = ""
         det = chk.get("detail") or []
         if det:
-            by = "; ".join(sorted({f"{x['function'].split('.')[-1]}: {x['obligation']}" for x in det}))[:260]
+            grp = {}
+            for x in det:
+                grp.setdefault(x["function"].split(".")[-1], set()).add(x["obligation"].replace("post/", ""))
+            by = "; ".join(f"`{fn}`: " + ", ".join(sorted(obs)[:4]) + (" …" if len(obs) > 4 else "") for fn, obs in sorted(grp.items()))[:420]
     rows.append(f"| {d} | {what} | {verdict} | {by.replace('|', '/')} |")
 table = "| seed | change (first sentence of the agent's summary) | verdict of `./check <property>` | failed obligation(s) |\n|---|---|---|---|\n" + "\n".join(rows)
 path = os.path.join(ROOT, "DESIGN.md")
